@@ -224,6 +224,37 @@ def apply_rules(ck: Checker, rule='C01.APPLY'):
             good = norm(lab_expr) == f'self.output_at_index({oi})' and isinstance(sub, ast.Subscript) and norm(sub.slice) == norm(outs.elts[0])
     ck.check(good, rule, m, fn, 'evaluate_at evaluates exactly the requested output and returns its value',
              'not of the form evaluate_circuit(A, outputs=[self.output_at_index(i)])[that label]', construct='Circuit.evaluate_at delegation')
+    # demand-driven evaluator: explicit stack discipline
+    fn = m.func('Circuit.evaluate_circuit')
+    wl = [n for n in fn.body if isinstance(n, ast.While)]
+    good = False
+    why = 'stack loop not found'
+    if len(wl) == 1:
+        w = wl[0]
+        q = norm(w.test)
+        b = w.body
+        if len(b) == 3 and isinstance(b[0], ast.Assign) and norm(b[0].value) == f'self.get_gate({q}[-1])' and isinstance(b[1], ast.For) and isinstance(b[2], ast.If):
+            g = norm(b[0].targets[0])
+            lp, cond = b[1], b[2]
+            op = norm(lp.target)
+            push_ok = norm(lp.iter) == f'{g}.operands' and len(lp.body) == 1 and isinstance(lp.body[0], ast.If) and not lp.body[0].orelse \
+                and norm(lp.body[0].test).startswith(f'{op} not in ') and [norm(x) for x in lp.body[0].body] == [f'{q}.append({op})']
+            amap = norm(lp.body[0].test).split(' not in ')[-1] if push_ok else None
+            eval_ok = norm(cond.test) == f'{g}.label == {q}[-1]' and not cond.orelse and len(cond.body) == 2 and norm(cond.body[1]) == f'{q}.pop()' \
+                and isinstance(cond.body[0], ast.Assign) and norm(cond.body[0].targets[0]) == f'{amap}[{g}.label]'
+            good = push_ok and eval_ok
+            why = f'push unevaluated operands: {push_ok}; evaluate-and-pop only when nothing was pushed: {eval_ok}'
+    ck.check(good, rule, m, wl[0] if wl else fn, 'evaluate_circuit: a gate is evaluated and popped only when the top of the stack is still that gate, i.e. every operand already has a value; otherwise its unevaluated operands are pushed',
+             why, construct='Circuit.evaluate_circuit stack loop')
+    seeds = [n for n in fn.body if isinstance(n, ast.For) and norm(n.iter) == '_outputs']
+    ok = len(seeds) == 1 and norm(fn.body[fn.body.index(seeds[0]) - 1]) == '_outputs = self._outputs if outputs is None else outputs'
+    if ok:
+        o = norm(seeds[0].target)
+        ok = len(seeds[0].body) == 1 and isinstance(seeds[0].body[0], ast.If) and norm(seeds[0].body[0].test) in (f'{o} not in self._inputs', f'{o} not in assignment_dict') \
+            and [norm(x) for x in seeds[0].body[0].body] == [f'queue_.append({o})']
+    ck.check(ok, rule, m, seeds[0] if seeds else fn, 'evaluate_circuit starts from the requested outputs (all outputs by default), skipping those that are inputs',
+             'seeding of the stack changed', construct='Circuit.evaluate_circuit seeding')
+
     # enumeration order in every whole-function query of Circuit
     n_enum = 0
     cls = m.cls('Circuit')
@@ -286,4 +317,4 @@ def run(ck: Checker):
             ck.ok('C01.SEM-SIB', hmod, hmod.func(hname), f'bench rewrite of {t} denotes {t}', construct=f'{hname} denotes {t}')
     ck.floor('C01.SEM-SIB', 100)
     apply_rules(ck)
-    ck.floor('C01.APPLY', 14)
+    ck.floor('C01.APPLY', 16)
